@@ -65,7 +65,7 @@ class SymDataset:
                     # bucket id = number of occupied levels below the element's level
                     cnt = z3.Sum([z3.If(z3.And(k < le, z3.Or(*[self.L[f][r] == k for f in range(self.n)])), 1, 0) for k in range(self.n)])
                 a[e][r] = fork.wrap(z3.If(le == -1, -1, cnt))
-        return a
+        return fork.as_symarr(a)
 
     def get_positions(self):
         return self._matrix("positions")
@@ -93,6 +93,28 @@ class SymDataset:
 
 
 _installed = {}
+
+
+def install_kwik_dispatcher():
+    """KwikSortRandom._where_should_it_be: symbolic position vectors -> Engine M on the real source (one merged term)"""
+    if "kwik" in _installed:
+        return
+    from corankco.algorithms.kwiksort.kwiksortrandom import KwikSortRandom
+    real = KwikSortRandom.__dict__["_where_should_it_be"]
+
+    def dispatch(self, pos_pivot, pos_other, scheme_np):
+        if not (isinstance(pos_pivot, np.ndarray) and pos_pivot.dtype == object):
+            return real(self, pos_pivot, pos_other, scheme_np)
+        I = merge.new_interp()
+        a_p = merge.const_array(I, (len(pos_pivot),), [fork.lift(x) for x in pos_pivot.tolist()])
+        a_o = merge.const_array(I, (len(pos_other),), [fork.lift(x) for x in pos_other.tolist()])
+        sch = merge.const_array(I, np.asarray(scheme_np).shape, [fork.lift(x) for x in np.asarray(scheme_np).ravel().tolist()])
+        res = I.call_function(real, [None, a_p, a_o, sch])
+        STATS.encoded.update(I.ctx.encoded)
+        return fork.wrap(merge.to_z3(res))
+    dispatch.__wrapped__ = real
+    KwikSortRandom._where_should_it_be = dispatch
+    _installed["kwik"] = "KwikSortRandom._where_should_it_be: symbolic positions -> Engine M on the current source"
 
 
 def install_kernel_dispatcher():
